@@ -276,6 +276,10 @@ class TypedPart:
                 return None, str(e)
         with ThreadPoolExecutor(max_workers=max(1, min(4, vlib.NPROC))) as ex:
             exes = list(ex.map(build, tus))
+        # a compiler killed for lack of memory (busy machine) is not a property of the tree: retry those alone
+        for k, (exe, err) in enumerate(exes):
+            if exe is None and ("error:" not in err or "Killed" in err or "internal compiler error" in err):
+                exes[k] = build(tus[k])
         return tus, exes, crash_ids
 
     def run(self, tier, seed, verdict, cov, driver):
